@@ -29,6 +29,26 @@ Proof.
 Qed.
 Print Assumptions C05_any_running_order.
 
+(* ... and for every message: the integer-messageID premise is not needed any more.  The only
+   places that evaluate self.message_id after an edit were the texts of warnings (a delete loop or an
+   insert that has already applied earlier elements); since repair F29 a warning text never raises, and
+   every MosMergeError is built before anything is changed.  So: any document with a roCreate, any
+   class, any parsed message whatsoever - if ro + m raises, ro is what it was. *)
+Theorem C05_any_running_order_any_message :
+  forall (o : oracles) (ro : xml) (k : mclass) (m : xml),
+  rc_of ro <> None ->
+  r_err (add o ro k m) <> None -> r_st (add o ro k m) = ro.
+Proof.
+  intros o ro k m Hrc. apply failed_merge_is_identity_all. now apply wf_ro_iff.
+Qed.
+Print Assumptions C05_any_running_order_any_message.
+(* it has instances among the messages the earlier premise excluded: a roItemMoveMultiple without
+   messageID whose second source is unknown raises AttributeError (from the text of the MosMergeError) *)
+Theorem C05_any_message_nonvacuous :
+  exists (o : oracles) ro k m,
+  rc_of ro <> None /\ msg_ok m = false /\ r_err (add o ro k m) = Some PyAttributeError.
+Proof. exact ex_failing_move_noid. Qed.
+Print Assumptions C05_any_message_nonvacuous.
 (* In a non-strict collection merge over any sequence of schema-shaped messages, the final
    running order is the result of applying exactly the messages that did not fail: every
    failing message, wherever it is placed, contributes nothing. *)
